@@ -25,6 +25,7 @@ def plan(tier, seed, kf_ids):
                 "from_{le,be,ne}_bytes inverse of to_*, decode = LE integer leaving the trailing byte, "
                 "decode of fewer than %d bytes is Err" % (n, n),
                 timeout=300, inst=c.alias(s, w, f), bounds="all 2^%d byte strings, all shorter lengths" % w))
+    c.interleave(jobs)
     return {
         "feature": "c10",
         "jobs": jobs,
